@@ -32,6 +32,7 @@ let () =
     | [| _; "core" |] -> Corecmd.handle
     | [| _; "literal" |] -> Litcmd.handle
     | [| _; "span" |] -> Spancmd.handle
+    | [| _; "value" |] -> Valcmd.handle
     | _ -> prerr_endline "usage: svd <command>"; exit 2 in
   (try
      while true do
